@@ -5,9 +5,10 @@ void far_copies(uint8_t *d, size_t n, uint64_t seed)
         Rng r(seed, "farcopy");
         size_t i = 4096 + (size_t) r.below(4096);
         while (i < n) {
-                int cluster = 2 + (int) r.below(5);
+                bool big = r.chance(1, 60); // rarely (so that their length symbols stay rare and get long codes) dozens of long copies back to back: 16 consecutive tokens of 30+ bits each
+                int cluster = big ? 16 + (int) r.below(48) : 2 + (int) r.below(5);
                 for (int c = 0; c < cluster && i < n; c++) {
-                        size_t len = 3 + (size_t) (r.chance(1, 2) ? r.below(12) : r.below(255));
+                        size_t len = big ? 131 + (size_t) r.below(120) : 3 + (size_t) (r.chance(1, 2) ? r.below(12) : r.below(255));
                         size_t dist = 4096 + (size_t) r.below(28672);
                         if (dist > i)
                                 dist = i;
@@ -58,6 +59,8 @@ std::vector<uint8_t> make_data(const Json &spec)
                         d[i] = 0xff;
                 return d;
         }
+        if (kind == DK_LITCOPY) // sizes itself: one block of literals, the copies, a short tail
+                n = 44000 + r.below(16000);
         std::vector<uint8_t> d(n);
         switch (kind) {
         case DK_RANDOM:
@@ -88,11 +91,23 @@ std::vector<uint8_t> make_data(const Json &spec)
         }
         case DK_LONGREP: { // a random block, repeated at distance p (p in bytes), with small edits
                 uint64_t dist = p ? p : 32768;
+                bool runs = spec.geti("runs") != 0; // the repeated block itself contains runs of 264-1200 equal bytes (matches longer than 258)
+                uint64_t run_left = 0, next_run = runs ? 200 + r.below(1500) : ~0ull;
+                uint8_t run_v = 0;
                 for (uint64_t i = 0; i < n; i++) {
                         if (i >= dist && !r.chance(1, 64))
                                 d[i] = d[i - dist];
-                        else
+                        else if (run_left) {
+                                d[i] = run_v;
+                                run_left--;
+                        } else {
                                 d[i] = (uint8_t) r.u64();
+                                if (i >= next_run && i < dist) {
+                                        run_left = 264 + r.below(940);
+                                        run_v = (uint8_t) r.u64();
+                                        next_run = i + run_left + 300 + r.below(2500);
+                                }
+                        }
                 }
                 break;
         }
@@ -122,6 +137,25 @@ std::vector<uint8_t> make_data(const Json &spec)
                         b = (uint8_t) r.u64();
                 far_copies(d.data(), d.size(), r.u64());
                 break;
+        case DK_LITCOPY: { // tens of thousands of random literals (one block's worth), then 30-60 long copies back to back from 17-29 KiB
+                           // back: their length symbols are rare in the block, get the longest codes, and 16 such tokens in a row are the
+                           // largest group the token encoders ever have to emit
+                for (auto &b : d)
+                        b = (uint8_t) r.u64();
+                uint64_t lit = 30000 + r.below(12000);
+                if (lit + 2000 < n) {
+                        uint64_t i = lit;
+                        for (int c = (int) (30 + r.below(31)); c > 0 && i < n; c--) {
+                                uint64_t len = 131 + r.below(120), dist = 17000 + r.below(12000);
+                                if (len > n - i)
+                                        len = n - i;
+                                for (uint64_t k = 0; k < len; k++)
+                                        d[i + k] = d[i + k - dist];
+                                i += len;
+                        }
+                }
+                break;
+        }
         case DK_SKEW: { // symbol k with probability ~2^-k: the unrestricted Huffman tree is deeper than 15, so code-length limiting runs
                 uint64_t perm = r.u64();
                 for (auto &b : d) {
